@@ -17,7 +17,9 @@ type Finding struct {
 	Detail string
 }
 
-func isDoc(k byte) bool { return k == cbsim.KMutation || k == cbsim.KDeletion || k == cbsim.KExpiration }
+func isDoc(k byte) bool {
+	return k == cbsim.KMutation || k == cbsim.KDeletion || k == cbsim.KExpiration
+}
 
 // expectedDeliveries applies the documented filters to what the node sent on one stream.
 func expectedDeliveries(spec *SessSpec, sg *Seg) []SentItem {
